@@ -7,8 +7,10 @@
 (*   last  lastRemoteIndex                                                    *)
 (*   dels, ups   what diffACLType / diffConfigEntries / DiffRemoteAndLocal-   *)
 (*         State returned                                                     *)
-(*   post  the real secondary store after the returned deletions and upserts  *)
-(*         went through fsm.FSM.Apply (batch delete, batch set)               *)
+(*   cmds  the raft commands the REAL round function (replicateACLType via     *)
+(*         replicateACLPolicies/Roles/Tokens, replicateConfig, IndexReplicator *)
+(*         .Replicate) submitted through leaderRaftApply, in order             *)
+(*   post  the real secondary store after that real round                      *)
 (*   err   class of the first error the real code reported ("none")           *)
 (* Each event is judged on its own with the operators of ReplDiff: the        *)
 (* property is evaluated on the IMPLEMENTATION's inputs, diff and post-state, *)
@@ -55,7 +57,15 @@ Verdict(i) ==
      \cup F("equal-no-writes", AlreadyEqual(e.kind, L, R) => (D = {} /\ U = {} /\ post = sec /\ e.writes = 0))
      \cup F("apply-ok", e.err = "none")
        \* the model of the application agrees with the real store (content view)
-     \cup F("apply-model", e.err # "none" \/ Proj(post) = Proj(ApplyDiff(sec, D, U, R))))
+     \cup F("apply-model", e.err # "none" \/ Proj(post) = Proj(ApplyRound(e.kind, sec, D, U, R).st))
+       \* the raft commands the REAL round submitted (recorded from replicateACLType / replicateConfig /
+       \* IndexReplicator.Replicate) delete exactly D and upsert exactly U, every id once
+     \cup F("round-writes", e.err # "none" \/
+              LET dl == FlattenSeq([k \in DOMAIN e.cmds |-> IF e.cmds[k].op = "delete" THEN e.cmds[k].ids ELSE <<>>])
+                  ul == FlattenSeq([k \in DOMAIN e.cmds |-> IF e.cmds[k].op = "upsert" THEN e.cmds[k].ids ELSE <<>>])
+              IN /\ ToSet(dl) = D /\ Len(dl) = Cardinality(D)
+                 /\ ToSet(ul) = U /\ Len(ul) = Cardinality(U)
+                 /\ \A k \in DOMAIN e.cmds : e.cmds[k].op \in {"delete", "upsert"} /\ e.cmds[k].ok))
 
 Init == l = 1
 Next == /\ l <= Len(Trace)
